@@ -93,6 +93,12 @@ def run_history(args) -> dict:
         (wd / f"{mod}.py").write_text(SUT)
     prev_disable = logging.root.manager.disable
     logging.disable(logging.NOTSET)
+    import pynguin.configuration as config  # noqa: PLC0415
+    import pynguin.generator as gen  # noqa: PLC0415
+
+    config.configuration.seeding.seed = 20260921
+    randomness.RNG.seed(20260921)
+    gen._patch_random()  # as generator._setup_and_check does before loading the SUT
     sp, _ = pyn.load_sut(mod, wd)
     executor = pyn.make_executor(sp, 5)
     base = {"stdout": sys.stdout, "stderr": sys.stderr, "log": logging.root.manager.disable,
